@@ -446,6 +446,7 @@ func runC19(r *hk.Run) {
 	runH2C(r, e)
 	runOptionRefs(r, e)
 	runFingerprint(r, e)
+	runHandshakeOrder(r, e, rng, r.Scale(40, 1000))
 	runReExec(r, e, rng, r.Scale(100, 2000))
 	runLive(r, e, rng, r.Scale(60, 1500))
 	n := r.Scale(320, 8000)
